@@ -147,6 +147,8 @@ struct Extractor {
         return true;
     if (isa<CallExpr>(S) || isa<StmtExpr>(S))
       return true;
+    if (isa<UnaryExprOrTypeTraitExpr>(S))
+      return false; // sizeof/alignof operands are not evaluated
     for (const Stmt *C : S->children())
       if (hasVarRef(C))
         return true;
@@ -543,8 +545,26 @@ struct Extractor {
           JT["op"] = BOp->getOpcodeStr().str();
         if (const auto *GS = dyn_cast<GotoStmt>(T))
           JT["label"] = GS->getLabel()->getName().str();
-        if (const Stmt *Cond = B->getTerminatorCondition(false))
+        if (const Stmt *Cond = B->getTerminatorCondition(false)) {
+          // For nested && / ||, the value tested at the end of this block is
+          // the right-most operand of the (left-associated) condition.
+          if (!isa<SwitchStmt>(T)) {
+            while (true) {
+              const Expr *CE = dyn_cast<Expr>(Cond);
+              if (!CE)
+                break;
+              CE = CE->IgnoreParens();
+              const auto *LB = dyn_cast<BinaryOperator>(CE);
+              if (LB && LB->isLogicalOp())
+                Cond = LB->getRHS();
+              else {
+                Cond = CE;
+                break;
+              }
+            }
+          }
           JT["cond"] = ser(Cond, Cond);
+        }
         JB["term"] = std::move(JT);
       }
       json::Array Succs, Unreach;
